@@ -81,6 +81,45 @@ def reduce_twins_case(draw, tier):
     return {"model": parent, "points": None, "dl": [], "dc": []}
 
 
+@st.composite
+def wide_fixed_case(draw, tier):
+    """one node with MANY children (around 64 / 128 / 256), either sign, 1-3 of them fixed by their bounds to non-zero
+    constants (booleans at 1, an integer at 2 or -1), the node still undecided; free leaves are set so that the number
+    of ones lands just below / at / just above the threshold"""
+    n = draw(st.sampled_from([17, 33, 63, 64, 65, 66, 100, 128, 129, 130, 200, 257]))
+    kids = [{"k": "leaf", "id": "o%03d" % i, "b": [0, 1]} for i in range(n)]
+    fixed_at = draw(st.lists(st.integers(0, n - 1), min_size=1, max_size=3, unique=True))
+    const_sum = 0
+    for j, pos in enumerate(fixed_at):
+        v = draw(st.sampled_from([1, 1, 1, 0, 2, -1]))
+        kids[pos]["b"] = [v, v]
+        const_sum += v
+    if draw(st.integers(0, 2)) == 0:
+        kids.append({"k": "Any", "id": draw(st.sampled_from(["G", None])), "c": [{"k": "leaf", "id": "g0", "b": [0, 1]}, {"k": "leaf", "id": "g1", "b": [0, 1]}]})
+    kind = draw(st.sampled_from(["AtMost", "AtMost", "AtLeast", "AtLeast-", "Xor"]))
+    k = draw(st.sampled_from([1, 2, 3, n // 2, const_sum + 1, const_sum + 2]))
+    if kind == "AtMost":
+        node = {"k": "AtMost", "v": max(k, const_sum), "id": "limit", "c": kids}
+    elif kind == "AtLeast":
+        node = {"k": "AtLeast", "v": k, "s": 1, "id": "need", "c": kids}
+    elif kind == "AtLeast-":
+        node = {"k": "AtLeast", "v": -max(k, const_sum), "s": -1, "id": "cap", "c": kids}
+    else:
+        node = {"k": "Xor", "id": "one", "c": kids}
+    extra = [{"k": "Any", "id": "E", "c": [{"k": "leaf", "id": "e0", "b": [0, 1]}, {"k": "leaf", "id": "e1", "b": [0, 1]}]}]
+    root = {"k": "All", "id": "M", "c": [node] + extra} if draw(st.booleans()) else node
+    lv = oracle.spec_leaves(root)
+    ids = sorted(lv)
+    free = [i for i in ids if lv[i][0] != lv[i][1]]
+    pts = []
+    for ones in sorted({0, 1, 2, max(0, k - const_sum - 1), max(0, k - const_sum), k - const_sum + 1, k, len(free)}):
+        ones = min(max(ones, 0), len(free))
+        for rot in (0, draw(st.integers(0, max(0, len(free) - 1)))):
+            chosen = {free[(rot + q) % len(free)] for q in range(ones)} if free else set()
+            pts.append([(lv[i][1] if i in chosen else lv[i][0]) for i in ids])
+    return {"model": root, "points": pts, "dl": [], "dc": []}
+
+
 def check(case, ev):
     spec = case["model"]
     m = common.build_valid(case, ev)
@@ -195,4 +234,4 @@ def empty(slice_i, n):
         yield {"model": spec, "points": None, "dl": [], "dc": []}
 
 def parts(tier):
-    return [Part("scale", strategy=lambda t: __import__("vf.strategies", fromlist=["x"]).scale_case(allow_const=True).map(lambda c: dict(c, dl=[], dc=[])), check=check, quick=(2, 40), thorough=(4, 600)), Part("empty0", enumerate_cases=(lambda t: empty(0, 1)), check=check, time_quick=120.0), Part("empty1", enumerate_cases=(lambda t: ({"model": S.with_fixed_leaf(c_["model"], "b", 1), "points": None, "dl": [], "dc": []} for c_ in empty(0, 1))), check=check, time_quick=120.0), Part("reduce_twins", strategy=lambda t: reduce_twins_case(t), check=check, quick=(2, 300), thorough=(4, 4000))] + [Part("wide_nodes", strategy=lambda t: __import__("vf.strategies", fromlist=["x"]).wide_case(allow_const=True).map(lambda c: dict(c, dl=[], dc=[])), check=check, quick=(2, 150), thorough=(4, 2000))] + [Part("shapes%d" % i, enumerate_cases=(lambda t, i=i: shapes(i, 6)), check=check, time_quick=120.0) for i in range(6)] + [Part("reduce", strategy=lambda t: case_strategy(t), check=check, quick=(8, 350), thorough=(16, 2500))]
+    return [Part("wide_fixed", strategy=lambda t: wide_fixed_case(t), check=check, quick=(2, 40), thorough=(4, 500)), Part("scale", strategy=lambda t: __import__("vf.strategies", fromlist=["x"]).scale_case(allow_const=True).map(lambda c: dict(c, dl=[], dc=[])), check=check, quick=(2, 40), thorough=(4, 600)), Part("empty0", enumerate_cases=(lambda t: empty(0, 1)), check=check, time_quick=120.0), Part("empty1", enumerate_cases=(lambda t: ({"model": S.with_fixed_leaf(c_["model"], "b", 1), "points": None, "dl": [], "dc": []} for c_ in empty(0, 1))), check=check, time_quick=120.0), Part("reduce_twins", strategy=lambda t: reduce_twins_case(t), check=check, quick=(2, 300), thorough=(4, 4000))] + [Part("wide_nodes", strategy=lambda t: __import__("vf.strategies", fromlist=["x"]).wide_case(allow_const=True).map(lambda c: dict(c, dl=[], dc=[])), check=check, quick=(2, 150), thorough=(4, 2000))] + [Part("shapes%d" % i, enumerate_cases=(lambda t, i=i: shapes(i, 6)), check=check, time_quick=120.0) for i in range(6)] + [Part("reduce", strategy=lambda t: case_strategy(t), check=check, quick=(8, 350), thorough=(16, 2500))]
